@@ -148,9 +148,10 @@ func (c *Real32) Log1pExp(a ConstScalar) Scalar {
     c.Log1p(c)
   } else
   if v <= 33.3 {
-    c.Neg(a)
-    c.Exp(c)
-    c.Add(c, a)
+    // x + exp(-x), evaluated in a single step so that the receiver may
+    // be the argument
+    e := math.Exp(-v)
+    c.monadic(a, v + e, 1.0 - e, e)
   } else {
     c.Set(a)
   }
